@@ -2,6 +2,7 @@ CONSTANTS
   N = 2
   MaxTasks = 4
   G = 1
+  Stops = 2
   Dev = {}
 SPECIFICATION Spec
 CHECK_DEADLOCK FALSE
